@@ -190,9 +190,35 @@ func TestTwoHistories(t *testing.T) {
 			t.Fatal(err)
 		}
 		g := hist.GenCfg{Txn: true, Managed: true, MaxBody: 3}
+		// half of the histories start with a "wildcard family": a leaf with a single child edge below which a named
+		// parameter and a catch-all compete (plus optional deeper routes); deleting the leaf later merges nodes that
+		// carry both wildcard indexes
+		var pre []hist.Op
+		if gen.Chance(t, 1, 2, "family") {
+			base := "/" + gen.Pick(t, gen.Statics, "fam")
+			if gen.Chance(t, 1, 3, "deep") {
+				base += "/" + gen.Pick(t, gen.Statics, "fam2")
+			}
+			m := gen.Pick(t, methods, "fmethod")
+			fam := []string{base, base + "/{pf}", base + "/*{cf}"}
+			if gen.Chance(t, 1, 2, "more") {
+				fam = append(fam, base+"/{pf}/x", base+"/*{cf}/y")
+			}
+			for _, p := range fam {
+				pre = append(pre, hist.Op{Kind: "handle", Method: m, Pattern: p})
+			}
+			if gen.Chance(t, 2, 3, "dropbase") {
+				pre = append(pre, hist.Op{Kind: "delete", Method: m, Pattern: base})
+			}
+		}
 		n := gen.IntR(t, 3, 40, "nops")
-		for i := 0; i < n; i++ {
-			op := scratch.GenOp(t, g)
+		for i := 0; i < n+len(pre); i++ {
+			var op hist.Op
+			if i < len(pre) {
+				op = pre[i]
+			} else {
+				op = scratch.GenOp(t, g)
+			}
 			if op.Kind == "view" {
 				continue // read-only: irrelevant for this property
 			}
